@@ -474,7 +474,7 @@ fn std_io_case(lo: u8, hi: u8) {
         | 1 => {
             let out = ManuallyDrop::new(world.invoke(BuiltinValueRole::IoWriteAll, vec![writer(to_stderr), bytes(), when_error.clone(), when_success.clone()]));
             assert!(matches!(&*out, Ok(c) if forces(c, &success_body)), "write_all succeeds on a standard writer");
-            assert!(world.output.len() == 3 && world.output[0] == payload[0] && world.output[1] == payload[1] && world.output[2] == payload[2], "the bytes are written in order");
+            assert!(world.output.len == 3 && world.output.buf[0] == payload[0] && world.output.buf[1] == payload[1] && world.output.buf[2] == payload[2], "the bytes are written in order");
         }
         | 2 => {
             let out = ManuallyDrop::new(world.invoke(BuiltinValueRole::IoFlush, vec![writer(to_stderr), when_error.clone(), when_success.clone()]));
@@ -491,7 +491,7 @@ fn std_io_case(lo: u8, hi: u8) {
         | 5 => {
             let out = ManuallyDrop::new(world.invoke(BuiltinValueRole::WriteStr, vec![text_value(&payload), when_success.clone()]));
             assert!(matches!(&*out, Ok(c) if forces(c, &success_body)), "write_str continues");
-            assert!(world.output.len() == 3 && world.output[0] == payload[0] && world.output[2] == payload[2], "write_str writes the text");
+            assert!(world.output.len == 3 && world.output.buf[0] == payload[0] && world.output.buf[2] == payload[2] && world.output.flushed >= 1, "write_str writes the text and flushes");
         }
         | 6 => {
             let out = ManuallyDrop::new(world.invoke(BuiltinValueRole::ReadLine, vec![when_success.clone()]));
